@@ -3,6 +3,7 @@ package main
 import (
 	"fmt"
 	"go/ast"
+	"go/token"
 	"go/types"
 	"sort"
 	"strings"
@@ -38,12 +39,27 @@ func computeReadSets(cs map[string]*checked) (map[string][]string, []string) {
 		direct[k] = map[string]bool{}
 		calls[k] = map[string]bool{}
 		c := fi.c
+		// a field that is only the TARGET of a plain assignment (`o.f = e`) is written, not read
+		assigned := map[*ast.SelectorExpr]bool{}
+		ast.Inspect(fi.decl.Body, func(n ast.Node) bool {
+			if as, ok := n.(*ast.AssignStmt); ok && as.Tok == token.ASSIGN {
+				for _, l := range as.Lhs {
+					if se, ok := l.(*ast.SelectorExpr); ok {
+						assigned[se] = true
+					}
+				}
+			}
+			return true
+		})
 		ast.Inspect(fi.decl.Body, func(n ast.Node) bool {
 			switch x := n.(type) {
 			case *ast.SelectorExpr:
 				if sel, ok := c.info.Selections[x]; ok {
 					switch sel.Kind() {
 					case types.FieldVal:
+						if assigned[x] {
+							break
+						}
 						rt := sel.Recv()
 						if pt, ok := rt.(*types.Pointer); ok {
 							rt = pt.Elem()
